@@ -13,7 +13,7 @@ _units = [
     unit('e2e', 'dispatchcloud_c14', '^TestVerifC14E2E$',
          {'shards': 10, 'timeout': 400, 'env': {'VERIF_SCENARIOS': 2, 'VERIF_MAXN': 120}},
          {'shards': 16, 'timeout': 1500, 'env': {'VERIF_SCENARIOS': 36, 'VERIF_MAXN': 500}},
-         rapid=False, crash_is_violation=True),
+         rapid=False, crash_is_violation=True, tolerate_infra=2),
 ]
 
 if 'C14' in CHECKS:
